@@ -25,10 +25,10 @@ def specs_for(ctx):
         align = rng.random() < 0.33
         if align:
             k = rng.choice([1, 1, 2, 2, 4])
-        far = rng.random() < 0.08
+        far = rng.random() < 0.15
         seed = rng.randrange(10 ** 9)
         sim = {"theta": rng.choice([rng.uniform(0, 2 * math.pi), rng.choice([0, 1, 2, 3]) * math.pi / 2 + rng.choice([-1, 1]) * 1e-3]),
-               "scale": 10 ** (rng.uniform(-8, -5) if rng.random() < 0.2 else rng.uniform(-3, 3)), "offset_sizes": rng.choice([1000, 8000]) if far else rng.uniform(0, 3),
+               "scale": 10 ** (rng.uniform(-8, -5) if rng.random() < 0.2 else rng.uniform(-3, 3)), "offset_sizes": rng.choice([1000, 2500, 3500, 8000]) if far else rng.uniform(0, 3),
                "offset_angle": rng.uniform(0, 6.28), "extent": 1.0, "reflect": rng.random() < 0.3}
         resample = rng.choice([None, None, 2, 4, 8, 12]) if k >= 2 else None
         # one in four un-resampled tissues is first analysed at another embedding and then moved IN PLACE on the live objects
